@@ -182,3 +182,18 @@ Proof.
   - apply (ed25519_roundtrip OEd (zq_ops_ring ed_p) (zq_ops_eqb ed_p) Hrefl Hint Hrange Hofto
              OEd_neg_parity KEd KEd_sqrtm1 x y Hc Hv).
 Qed.
+
+(* parameterised groups over Z/P: a residue group with cofactor 6 (P = 31, Q = 5):
+   4 = 2^2 is in the subgroup of order 5 and round-trips; 9 is a quadratic residue
+   outside it and is refused (a Jacobi-symbol test would accept it) *)
+Example residue_cofactor6 :
+  residue_decode (zq_ops 31) 31 5 [4] = Ok 4 /\
+  residue_decode (zq_ops 31) 31 5 (residue_encode 1 4) = Ok 4 /\
+  residue_decode (zq_ops 31) 31 5 [9] = Err /\
+  Z.pow 9 15 mod 31 = 1 /\
+  residue_decode (zq_ops 31) 31 5 [0] = Err /\ residue_decode (zq_ops 31) 31 5 [31] = Err /\
+  residue_decode (zq_ops 31) 31 5 [0; 0; 4] = Ok 4.
+Proof. vm_compute. repeat split; reflexivity. Qed.
+
+Lemma zq_ops_refl q (a : zq q) : feqb (zq_ops q) a a = true.
+Proof. cbn. apply zeqb_eq. reflexivity. Qed.
